@@ -750,9 +750,15 @@ pub fn decrypt_chunk_with_keys(
     key_store: &TactKeyStore,
     block_index: usize,
 ) -> BlteResult<Vec<u8>> {
-    if data.len() < 17 {
+    // Smallest encrypted chunk body: key name size (1) + key name (8) +
+    // IV size (1) + 4-byte IV + encryption type (1) = 15 bytes of header,
+    // followed by the ciphertext. The encoder emits 16 bytes for an empty
+    // payload (header + encrypted inner mode byte). Longer IVs are checked
+    // field by field below.
+    const MIN_ENCRYPTED_CHUNK_SIZE: usize = 15;
+    if data.len() < MIN_ENCRYPTED_CHUNK_SIZE {
         return Err(BlteError::CompressionError(format!(
-            "Encrypted chunk too short: {} bytes (minimum 17)",
+            "Encrypted chunk too short: {} bytes (minimum {MIN_ENCRYPTED_CHUNK_SIZE})",
             data.len()
         )));
     }
